@@ -54,10 +54,11 @@ def r2_dispatch(ctx):
     f = ctx.fn(rid, P + "parse_root")
     cfg, ex = Cfg(f), Exprs(f)
     arms = str_match_arms(f, cfg, ex)
-    kws = [a[0] for a in arms]
-    ok = sorted(kws) == sorted(spec["gui_to_engine_commands"])
+    kws = sorted({a[0] for a in arms})       # (a word may be looked at twice: classified for a statistic, then dispatched)
+    ok = kws == sorted(spec["gui_to_engine_commands"])
     ctx.ob(rid, "keyword-set", ok, "" if ok else "dispatch keywords %s differ from the UCI command set (missing %s, extra %s)" % (sorted(kws), sorted(set(spec["gui_to_engine_commands"]) - set(kws)), sorted(set(kws) - set(spec["gui_to_engine_commands"]))),
            ctx.where(f), sample={"keywords": sorted(kws)})
+    per_kw = {}
     for kw, eqb, head, _ in arms:
         region = arm_region(cfg, head, None)
         acts = []
@@ -70,8 +71,13 @@ def r2_dispatch(ctx):
             t = blk["term"]
             if t["k"] == "call" and (t["callee"].get("key") or "").startswith(P + "parse_"):
                 acts.append(("parser", t["callee"]["key"][len(P):]))
-        ok = len(acts) == 1 and ((acts[0][0] == "variant" and acts[0][1].lower() == kw) or (acts[0][0] == "parser" and acts[0][1] == "parse_" + kw))
-        ctx.ob(rid, "command|%s" % kw, ok, "" if ok else "the command word %r leads to %s (expected the variant / parse_ function named after it)" % (kw, acts), ctx.where(f, f["blocks"][eqb]["term"]["line"]),
+        per_kw.setdefault(kw, []).append((acts, eqb))
+    for kw, lst in sorted(per_kw.items()):
+        # arms of the same word that lead to no command at all (they classify the word for something else) do not count
+        acting = [(acts, eqb) for acts, eqb in lst if acts] or lst[:1]
+        acts, eqb = acting[0]
+        ok = len(acting) == 1 and len(acts) == 1 and ((acts[0][0] == "variant" and acts[0][1].lower() == kw) or (acts[0][0] == "parser" and acts[0][1] == "parse_" + kw))
+        ctx.ob(rid, "command|%s" % kw, ok, "" if ok else "the command word %r leads to %s (expected the variant / parse_ function named after it)" % (kw, [a for a, _ in acting]), ctx.where(f, f["blocks"][eqb]["term"]["line"]),
                sample={"keyword": kw, "action": acts})
 
 
